@@ -501,4 +501,29 @@ def lrun (l : LSt) : List LOp → LSt
   | [] => l
   | o :: os => lrun (lstep l o) os
 
+/-! ### an unlocked fast path for delete events: what `loadMu` around every event kind buys -/
+
+/-- Steps of the concurrent model plus `fastDelete`: the spec consumer takes the oldest spec event
+and, the spec stored under that id being gone (a delete event), frees the symbol at once –
+*without* waiting for the load in flight, i.e. without `loadMu`. -/
+inductive UOp where
+  | c (o : COp)
+  | fastDelete
+
+def ustep (c : CSt) : UOp → CSt
+  | .c o => cstep c o
+  | .fastDelete =>
+    match c.st.specEv with
+    | [] => c
+    | i :: rest =>
+      match lookup c.st.specs i with
+      | some _ => c                       -- not a deletion: the consumer goes through `Load`
+      | none =>
+        let r := freeSym c.st.table c.st.log i
+        { c with st := { c.st with specEv := rest, table := r.1, log := r.2 } }
+
+def urun (c : CSt) : List UOp → CSt
+  | [] => c
+  | o :: os => urun (ustep c o) os
+
 end Uniflow.Runtime
